@@ -48,10 +48,8 @@ func ackMoves(c *Ctx, id string) {
 				if f := cc.StaticCallee(); f != nil {
 					if isPW[f] {
 						d := "?"
-						for _, x := range cc.Args[1:] {
-							if isBool(x.Type()) {
-								d = w.Origin(x)
-							}
+						if _, _, da := w.writerArgs(cc, f); da != nil {
+							d = w.Origin(da)
 						}
 						if _, isGo := in.(*ssa.Go); isGo {
 							return "go-move(" + d + ")", nil
@@ -135,10 +133,8 @@ func absorbMoves(c *Ctx, id string) {
 				return
 			}
 			d := ""
-			for _, x := range cc.Args[1:] {
-				if isBool(x.Type()) {
-					d = w.Origin(x)
-				}
+			if _, _, da := w.writerArgs(cc, cc.StaticCallee()); da != nil {
+				d = w.Origin(da)
 			}
 			for _, g := range guardsOf(in.Block()) {
 				if ex, ok := g.Cond.(*ssa.Extract); ok && g.Branch {
